@@ -1,0 +1,171 @@
+//go:build verif
+
+// Contracts for the deductive verifier in /verif (govc). Only compiled with -tags verif.
+
+package policy
+
+import (
+	"strings"
+
+	"github.com/snapcore/snapd/asserts"
+	"github.com/snapcore/snapd/snap"
+)
+
+//@ func assert_
+//@   requires b
+
+func assert_(b bool) {}
+
+// ---- specification vocabulary -----------------------------------------------------
+
+//@ func specTypeName
+//@   pure
+
+// the name a snap type is matched under: "core" for os and snapd
+func specTypeName(info *snap.Info) string {
+	t := info.Type()
+	if t == snap.TypeOS || t == snap.TypeSnapd {
+		return "core"
+	}
+	return string(t)
+}
+
+//@ func specIDCand
+//@   pure
+
+// what a listed id stands for: $-prefixed entries are looked up in special (unknown ones are "")
+func specIDCand(c string, special map[string]string) string {
+	if strings.HasPrefix(c, "$") {
+		return special[c]
+	}
+	return c
+}
+
+//@ func specPubCand
+//@   pure
+
+func specPubCand(c, key, val string) string {
+	if strings.HasPrefix(c, "$") {
+		if c == key {
+			return val
+		}
+		return ""
+	}
+	return c
+}
+
+//@ define idOK(id string, ids []string, special map[string]string) = len(ids) == 0 || (id != "" && exists k int :: 0 <= k && k < len(ids) && id == specIDCand(ids[k], special))
+//@ define idOK0(id string, ids []string) = len(ids) == 0 || (id != "" && exists k int :: 0 <= k && k < len(ids) && id == specPubCand(ids[k], "", ""))
+//@ define pubIDOK(id string, ids []string, key string, val string) = len(ids) == 0 || (id != "" && exists k int :: 0 <= k && k < len(ids) && id == specPubCand(ids[k], key, val))
+//@ define snapTypeOK(info *snap.Info, types []string) = len(types) == 0 || exists k int :: 0 <= k && k < len(types) && types[k] == specTypeName(info)
+//@ define onClassicOK(c *asserts.OnClassicConstraint) = c == nil || (c.Classic == release.OnClassic && (!(c.Classic && len(c.SystemIDs) != 0) || idOK0(release.ReleaseInfo.ID, c.SystemIDs)))
+//@ define onCoreDesktopOK(c *asserts.OnCoreDesktopConstraint) = c == nil || c.CoreDesktop == release.OnCoreDesktop
+//@ define nameConstrOK(c *asserts.NameConstraints, ifaceName string, name string) = c == nil || nameOK(c, name, ifaceName)
+//@ define devScopeConstrOK(c *asserts.DeviceScopeConstraint, model *asserts.Model, store *asserts.Store) = c == nil || devScopeOK(c, model, store, true)
+
+//@ define plugConn1OK(connc *ConnectCandidate, cs *asserts.PlugConnectionConstraints) = nameConstrOK(cs.PlugNames, connc.Plug.Interface(), connc.Plug.Name()) && nameConstrOK(cs.SlotNames, connc.Slot.Interface(), connc.Slot.Name()) && attrOK(cs.PlugAttributes, iface(connc.Plug), iface(connc)) && attrOK(cs.SlotAttributes, iface(connc.Slot), iface(connc)) && snapTypeOK(connc.Slot.Snap(), cs.SlotSnapTypes) && idOK0(connc.slotSnapID(), cs.SlotSnapIDs) && pubIDOK(connc.SlotPublisherID(), cs.SlotPublisherIDs, "$PLUG_PUBLISHER_ID", connc.PlugPublisherID()) && onClassicOK(cs.OnClassic) && onCoreDesktopOK(cs.OnCoreDesktop) && devScopeConstrOK(cs.DeviceScope, connc.Model, connc.Store)
+
+//@ define slotConn1OK(connc *ConnectCandidate, cs *asserts.SlotConnectionConstraints) = nameConstrOK(cs.PlugNames, connc.Plug.Interface(), connc.Plug.Name()) && nameConstrOK(cs.SlotNames, connc.Slot.Interface(), connc.Slot.Name()) && attrOK(cs.PlugAttributes, iface(connc.Plug), iface(connc)) && attrOK(cs.SlotAttributes, iface(connc.Slot), iface(connc)) && snapTypeOK(connc.Slot.Snap(), cs.SlotSnapTypes) && snapTypeOK(connc.Plug.Snap(), cs.PlugSnapTypes) && idOK0(connc.plugSnapID(), cs.PlugSnapIDs) && pubIDOK(connc.PlugPublisherID(), cs.PlugPublisherIDs, "$SLOT_PUBLISHER_ID", connc.SlotPublisherID()) && onClassicOK(cs.OnClassic) && onCoreDesktopOK(cs.OnCoreDesktop) && devScopeConstrOK(cs.DeviceScope, connc.Model, connc.Store)
+
+//@ define plugAltOK(connc *ConnectCandidate, alt []*asserts.PlugConnectionConstraints) = len(alt) == 0 || exists k int :: 0 <= k && k < len(alt) && plugConn1OK(connc, alt[k])
+//@ define slotAltOK(connc *ConnectCandidate, alt []*asserts.SlotConnectionConstraints) = len(alt) == 0 || exists k int :: 0 <= k && k < len(alt) && slotConn1OK(connc, alt[k])
+
+// ---- leaf checks ----------------------------------------------------------------------
+
+//@ func checkSnapType
+//@   props C21
+//@   ensures (result == nil) == snapTypeOK(snapInfo, types)
+//@   loop 0: invariant -1 <= idx0 && idx0 < len(types)
+//@   loop 0: invariant forall k int :: 0 <= k && k <= idx0 ==> types[k] != s
+
+//@ func checkID
+//@   props C21
+//@   ensures (result == nil) == idOK(id, ids, special)
+//@   ensures special == nil ==> (result == nil) == idOK0(id, ids)
+//@   ensures forall key string, val string :: {pubIDOK(id, ids, key, val)} (forall c string :: special[c] == ite(c == key, val, "")) ==> (result == nil) == pubIDOK(id, ids, key, val)
+//@   loop 0: invariant -1 <= idx0 && idx0 < len(ids) && id != ""
+//@   loop 0: invariant forall k int :: 0 <= k && k <= idx0 ==> id != specIDCand(ids[k], special)
+
+//@ func checkOnClassic
+//@   props C21
+//@   ensures (result == nil) == onClassicOK(c)
+
+//@ func checkOnCoreDesktop
+//@   props C21
+//@   ensures (result == nil) == onCoreDesktopOK(c)
+
+//@ func checkDeviceScope
+//@   props C21
+//@   ensures (result == nil) == devScopeConstrOK(c, model, store)
+
+//@ func checkNameConstraints
+//@   props C21
+//@   ensures (result == nil) == nameConstrOK(c, iface, name)
+
+// ---- one alternative ---------------------------------------------------------------
+
+//@ func checkPlugConnectionConstraints1
+//@   props C21
+//@   ensures (result == nil) == plugConn1OK(connc, constraints)
+
+//@ func checkSlotConnectionConstraints1
+//@   props C21
+//@   ensures (result == nil) == slotConn1OK(connc, constraints)
+
+// ---- alternatives: at least one must match -----------------------------------------------
+
+//@ func checkPlugConnectionAltConstraints
+//@   props C21
+//@   ensures (result1 == nil) == plugAltOK(connc, altConstraints)
+//@   ensures result1 == nil && len(altConstraints) > 0 ==> exists k int :: 0 <= k && k < len(altConstraints) && result0 == altConstraints[k] && plugConn1OK(connc, altConstraints[k]) && forall j int :: 0 <= j && j < k ==> !plugConn1OK(connc, altConstraints[j])
+//@   loop 0: invariant -1 <= idx0 && idx0 < len(altConstraints) && (idx0 >= 0 ==> firstErr != nil) && (idx0 == -1 ==> firstErr == nil)
+//@   loop 0: invariant forall k int :: 0 <= k && k <= idx0 ==> !plugConn1OK(connc, altConstraints[k])
+
+//@ func checkSlotConnectionAltConstraints
+//@   props C21
+//@   ensures (result1 == nil) == slotAltOK(connc, altConstraints)
+//@   ensures result1 == nil && len(altConstraints) > 0 ==> exists k int :: 0 <= k && k < len(altConstraints) && result0 == altConstraints[k] && slotConn1OK(connc, altConstraints[k]) && forall j int :: 0 <= j && j < k ==> !slotConn1OK(connc, altConstraints[j])
+//@   loop 0: invariant -1 <= idx0 && idx0 < len(altConstraints) && (idx0 >= 0 ==> firstErr != nil) && (idx0 == -1 ==> firstErr == nil)
+//@   loop 0: invariant forall k int :: 0 <= k && k <= idx0 ==> !slotConn1OK(connc, altConstraints[k])
+
+// ---- rules: deny over allow ----------------------------------------------------------
+
+//@ define plugRuleOK(connc *ConnectCandidate, kind string, rule *asserts.PlugRule) = ite(kind == "auto-connection", !plugAltOK(connc, rule.DenyAutoConnection) && plugAltOK(connc, rule.AllowAutoConnection), !plugAltOK(connc, rule.DenyConnection) && plugAltOK(connc, rule.AllowConnection))
+//@ define slotRuleOK(connc *ConnectCandidate, kind string, rule *asserts.SlotRule) = ite(kind == "auto-connection", !slotAltOK(connc, rule.DenyAutoConnection) && slotAltOK(connc, rule.AllowAutoConnection), !slotAltOK(connc, rule.DenyConnection) && slotAltOK(connc, rule.AllowConnection))
+
+//@ func (*ConnectCandidate).checkPlugRule
+//@   props C21
+//@   requires rule != nil && connc != nil
+//@   ensures (result1 == nil) == plugRuleOK(connc, kind, rule)
+
+//@ func (*ConnectCandidate).checkSlotRule
+//@   props C21
+//@   requires rule != nil && connc != nil
+//@   ensures (result1 == nil) == slotRuleOK(connc, kind, rule)
+
+// ---- the decision: the most specific applicable rule decides --------------------------------
+
+//@ func (*ConnectCandidate).check
+//@   props C21
+//@   requires connc != nil
+//@   ensures connc.BaseDeclaration == nil ==> result1 != nil
+//@   ensures connc.BaseDeclaration != nil && connc.Slot.Interface() != connc.Plug.Interface() ==> result1 != nil
+//@   ensures connc.BaseDeclaration != nil && connc.Slot.Interface() == connc.Plug.Interface() && connc.PlugSnapDeclaration != nil && connc.PlugSnapDeclaration.PlugRule(connc.Plug.Interface()) != nil ==> (result1 == nil) == plugRuleOK(connc, kind, connc.PlugSnapDeclaration.PlugRule(connc.Plug.Interface()))
+//@   ensures connc.BaseDeclaration != nil && connc.Slot.Interface() == connc.Plug.Interface() && !(connc.PlugSnapDeclaration != nil && connc.PlugSnapDeclaration.PlugRule(connc.Plug.Interface()) != nil) && connc.SlotSnapDeclaration != nil && connc.SlotSnapDeclaration.SlotRule(connc.Plug.Interface()) != nil ==> (result1 == nil) == slotRuleOK(connc, kind, connc.SlotSnapDeclaration.SlotRule(connc.Plug.Interface()))
+//@   ensures connc.BaseDeclaration != nil && connc.Slot.Interface() == connc.Plug.Interface() && !(connc.PlugSnapDeclaration != nil && connc.PlugSnapDeclaration.PlugRule(connc.Plug.Interface()) != nil) && !(connc.SlotSnapDeclaration != nil && connc.SlotSnapDeclaration.SlotRule(connc.Plug.Interface()) != nil) && connc.BaseDeclaration.PlugRule(connc.Plug.Interface()) != nil ==> (result1 == nil) == plugRuleOK(connc, kind, connc.BaseDeclaration.PlugRule(connc.Plug.Interface()))
+//@   ensures connc.BaseDeclaration != nil && connc.Slot.Interface() == connc.Plug.Interface() && !(connc.PlugSnapDeclaration != nil && connc.PlugSnapDeclaration.PlugRule(connc.Plug.Interface()) != nil) && !(connc.SlotSnapDeclaration != nil && connc.SlotSnapDeclaration.SlotRule(connc.Plug.Interface()) != nil) && connc.BaseDeclaration.PlugRule(connc.Plug.Interface()) == nil && connc.BaseDeclaration.SlotRule(connc.Plug.Interface()) != nil ==> (result1 == nil) == slotRuleOK(connc, kind, connc.BaseDeclaration.SlotRule(connc.Plug.Interface()))
+//@   ensures connc.BaseDeclaration != nil && connc.Slot.Interface() == connc.Plug.Interface() && !(connc.PlugSnapDeclaration != nil && connc.PlugSnapDeclaration.PlugRule(connc.Plug.Interface()) != nil) && !(connc.SlotSnapDeclaration != nil && connc.SlotSnapDeclaration.SlotRule(connc.Plug.Interface()) != nil) && connc.BaseDeclaration.PlugRule(connc.Plug.Interface()) == nil && connc.BaseDeclaration.SlotRule(connc.Plug.Interface()) == nil ==> result1 == nil
+
+// ---- deny monotonicity --------------------------------------------------------------------
+
+//@ func lemDenyMonotone
+//@   lemma
+//@   props C21
+//@   requires connc != nil && rule != nil && rule2 != nil
+//@   requires rule2.AllowConnection == rule.AllowConnection && len(rule.DenyConnection) >= 1 && len(rule2.DenyConnection) == len(rule.DenyConnection) + 1
+//@   requires forall k int :: 0 <= k && k < len(rule.DenyConnection) ==> rule2.DenyConnection[k] == rule.DenyConnection[k]
+//@   requires !plugRuleOK(connc, "connection", rule)
+//@   ensures !plugRuleOK(connc, "connection", rule2)
+
+// adding a deny alternative to a rule never turns a refusal into an allowance
+func lemDenyMonotone(connc *ConnectCandidate, rule, rule2 *asserts.PlugRule) {}
